@@ -2,6 +2,8 @@ import BqVerif.Proofs.GatesUnitary
 import BqVerif.Proofs.GatesGrad
 import BqVerif.Proofs.GatesQudit
 import BqVerif.Proofs.GatesEmbed
+import BqVerif.Proofs.GatesGeneral
+import BqVerif.Proofs.GatesLevels
 import BqVerif.Proofs.GatesWitness
 import BqVerif.Model.GateShapeTable
 import BqVerif.Generated.GateShapes
@@ -573,6 +575,17 @@ example : ∃ (t : Nat → Nat) (U : M ℂ), (∀ i, i < 2 → t i < 3) ∧
     (∀ i, i < 2 → ∀ j, j < 2 → t i = t j → i = j) ∧ IsUnitary 2 U :=
   ⟨fun i => 2 * i, _, by decide, by decide, C18_unitary_sx K0 K0_valid⟩
 
+/-- `EmbeddedGate` as constructed: one level map per qudit, as long as the gate radix, without
+repetition and into the target radix (exactly what the constructor checks, `MapsOK`) makes
+`_map_matrix`'s target index `embTarget` one-to-one, so the embedded gate is unitary of
+dimension `∏ radixes` whenever the inner gate is -/
+theorem C18_embedded_levels (gr rs : List Nat) (maps : List (List Nat)) (hm : MapsOK gr rs maps)
+    (hpos : ∀ r ∈ gr, 0 < r) (U : M R) (hU : IsUnitary (prodL gr) U) :
+    IsUnitary (prodL rs) (embed (prodL gr) (embTarget gr rs maps) eye U) :=
+  embed_unitary _ _ _ U (embTarget_ok gr rs maps hm hpos).1 (embTarget_ok gr rs maps hm hpos).2 hU
+example : MapsOK [2, 2] [3, 4] [[0, 2], [3, 1]] ∧ ∀ r ∈ [2, 2], 0 < r := by
+  refine ⟨⟨rfl, by decide, by decide, rfl, by decide, by decide, trivial⟩, by decide⟩
+
 /-- `EmbeddedGate.get_grad` (`_map_matrix` into the zero matrix) is the first-order coefficient -/
 theorem C18_embedded_grad {S : Type} [CommRing S] (d : Nat) (t : Nat → Nat) (U G V : M S) (ε : S)
     (hV : ∀ i j, V i j = U i j + ε * G i j) :
@@ -591,6 +604,31 @@ theorem C18_inverse_u3 (K : Consts R) (hK : K.Valid) (t p l : Ang R)
   inverse_u3 K hK t p l ht hp hl
 example : ∃ (K : Consts ℂ) (t p l : Ang ℂ), K.Valid ∧ t.Valid ∧ p.Valid ∧ l.Valid :=
   ⟨K0, a0, a0, a0, K0_valid, a0_valid, a0_valid, a0_valid⟩
+
+/-! ## General gates: `calc_params`, `optimize` (partial: numerics as hypotheses) -/
+
+/-- PARTIAL (`U3Gate.calc_params`): *given* the polar data numpy extracts from the special unitary
+`det^{-1/2}·U` (`a = angle(su[1,1])`, `b = angle(su[1,0])`, `c = |su[1,0]|`, `d = |su[0,0]|`), the
+returned `θ = 2·atan2(c,d)`, `φ = a+b`, `λ = a−b` reproduce the argument up to the global phase
+`e^{ia}`.  Missing for the full statement: that every 2×2 unitary has this polar form and that
+`det ** (-1/2)`, `np.angle`, `np.abs`, `arctan2` compute it. -/
+theorem C18_calc_params_u3_partial (K : Consts R) (hK : K.Valid) (A B : Ang R) (hA : A.Valid)
+    (hB : B.Valid) (c d : R) :
+    toM 2 (u3 K ⟨d, c⟩ (A.add B) (A.add B.neg)) = A.e K • toM 2 (suPolar K A B c d) :=
+  calc_params_u3 K hK A B hA hB c d
+example : ∃ (K : Consts ℂ) (A B : Ang ℂ), K.Valid ∧ A.Valid ∧ B.Valid :=
+  ⟨K0, a0, a0, K0_valid, a0_valid, a0_valid⟩
+
+/-- PARTIAL (`GeneralGate.optimize`): *given* an SVD `env = W·Σ·Vᴴ`, the unitary `V·Wᴴ` the code
+hands to `calc_params` attains `tr(env·V Wᴴ) = tr Σ`, and every other candidate has objective
+`tr(Σ·X)` with `X = Vᴴ U W`.  Missing: the estimate `Re tr(Σ X) ≤ tr Σ` for unitary `X`, `Σ ≥ 0`
+(order structure of `ℂ`), and that LAPACK returns an SVD. -/
+theorem C18_optimize_svd_partial {n : Nat} (E W S V U : Matrix (Fin n) (Fin n) R)
+    (hE : E = W * S * Vᴴ) (hW : Wᴴ * W = 1) (hV : Vᴴ * V = 1) :
+    trace (E * (V * Wᴴ)) = trace S ∧ trace (E * U) = trace (S * (Vᴴ * U * W)) :=
+  optimize_svd E W S V U hE hW hV
+example : ∃ (E W S V : Matrix (Fin 2) (Fin 2) ℂ), E = W * S * Vᴴ ∧ Wᴴ * W = 1 ∧ Vᴴ * V = 1 :=
+  ⟨1, 1, 1, 1, by simp, by simp, by simp⟩
 
 /-! ## Shape table -/
 
